@@ -177,10 +177,10 @@ Section Local.
   Qed.
 
   Lemma enter_access_ok B a i k :
-    acc_wf u c a -> i < ntrees u -> pas_stack u c 2 k -> ret_ty false k ->
+    acc_wf u c a -> acc_get a -> i < ntrees u -> pas_stack u c 2 k -> ret_ty false k ->
     aok gh_nil B (enter_access u a i k).
   Proof.
-    intros A L P T. destruct a as [o cl local|cl o|? ? ?]; cbn [acc_wf enter_access] in *; [| |destruct A].
+    intros A AG L P T. destruct a as [o cl local|cl o|? ? ?]; cbn [acc_wf acc_get enter_access] in *; [| |destruct AG].
     - apply enter_tu_ok; [exact L| |].
       + cbn [twf]. split; [|split; [exact P|exact T]]. cbn [top_wf]. split; [exact A|]. split; [left; reflexivity|exact L].
       + eapply gh_top_nil; [exact P|reflexivity|reflexivity].
@@ -198,6 +198,7 @@ Section Local.
     - apply aok_err; [eapply pas_weak; [|exact P]; lia|exact T].
     - inversion C as [|? ? Hi Hr]; subst. cbn [snd] in Hi.
       apply enter_access_ok.
+      + apply S.
       + apply S.
       + exact Hi.
       + apply pas_cons; [cbn [pas_wf]; split; assumption|cbn; lia|exact P].
@@ -222,11 +223,11 @@ Section Local.
   Qed.
 
   Lemma enter_sb_ok a rt cap start offset len k :
-    acc_wf u c a -> ntrees u <> 0 -> pas_stack u c 3 k -> ret_ty false k ->
+    acc_wf u c a -> acc_get a -> ntrees u <> 0 -> pas_stack u c 3 k -> ret_ty false k ->
     aok gh_nil (S (sw k)) (enter_sb u a rt cap start offset len k).
   Proof.
-    intros A N P T. unfold enter_sb. apply N.eqb_neq in N. rewrite N, andb_false_r.
-    apply sb_next_ok; [|exact P|exact T]. split; [exact A|]. split; [constructor|apply N.eqb_neq; exact N].
+    intros A AG N P T. unfold enter_sb. apply N.eqb_neq in N. rewrite N, andb_false_r.
+    apply sb_next_ok; [|exact P|exact T]. split; [split; [exact A|exact AG]|]. split; [constructor|apply N.eqb_neq; exact N].
   Qed.
 
   Lemma enter_sar_ok o cl local start k :
@@ -235,10 +236,10 @@ Section Local.
   Proof.
     intros R P T. assert (N : ntrees u <> 0) by (destruct R as (r & E & _); eapply ntrees_pos; exact E).
     unfold enter_search_and_reserve. destruct (Nat.ltb o (hord g)).
-    - eapply aok_weak; [|apply enter_sb_ok]; [cbn [sw fold_right fw]; fold (sw k); lia|exact R|exact N| |].
+    - eapply aok_weak; [|apply enter_sb_ok]; [cbn [sw fold_right fw]; fold (sw k); lia|exact R|exact I|exact N| |].
       + apply pas_cons; [exact R|cbn; lia|exact P].
       + apply ret_ty_cons; [reflexivity|exact T].
-    - eapply aok_weak; [|apply enter_sb_ok]; [lia|exact R|exact N|eapply pas_weak; [|exact P]; lia|exact T].
+    - eapply aok_weak; [|apply enter_sb_ok]; [lia|exact R|exact I|exact N|eapply pas_weak; [|exact P]; lia|exact T].
   Qed.
 
   (* ----- steal_local / demote_local ----- *)
@@ -360,6 +361,28 @@ Section Local.
     - eapply gh_top_nil; [exact P|reflexivity|reflexivity].
   Qed.
 
+  (* ----- change_tree: Trees::search over all trees / change_at ----- *)
+  Lemma enter_access_change B a i k :
+    acc_wf u c a -> (exists mc mf ch, a = AcChange mc mf ch) -> i < ntrees u -> pas_stack u c 2 k -> ret_ty false k ->
+    aok gh_nil B (enter_access u a i k).
+  Proof.
+    intros A (mc & mf & ch & ->) L P T. cbn [acc_wf enter_access] in *. destruct A as (m & Ec & -> & ->).
+    rewrite (tree_ok_lt _ L). apply aok_do; [| |apply not_lprim_enter; discriminate].
+    - cbn [twf]. split; [|split; [exact P|exact T]]. cbn [top_wf]. exists i, m, ch. split; [exact Ec|].
+      split; [left; reflexivity|exact L].
+    - eapply gh_top_nil; [exact P|reflexivity|reflexivity].
+  Qed.
+
+  Lemma se_next_ok a i n k :
+    acc_wf u c a -> (exists mc mf ch, a = AcChange mc mf ch) -> ntrees u <> 0 -> pas_stack u c 3 k -> ret_ty false k ->
+    aok gh_nil (S (sw k)) (se_next u a i n k).
+  Proof.
+    intros A C N P T. destruct n as [|n]; cbn [se_next].
+    - apply aok_err; [eapply pas_weak; [|exact P]; lia|exact T].
+    - apply enter_access_change; [exact A|exact C|apply walk_idx_lt; exact N| |apply ret_ty_cons; [reflexivity|exact T]].
+      apply pas_cons; [cbn [pas_wf]; split; [exact A|split; [exact C|exact N]]|cbn; lia|exact P].
+  Qed.
+
   (* ----- the passive frames: a value is returned to them ----- *)
   Lemma ret_r_ok G r k :
     pas_stack u c 0 k -> ret_ty false k -> (forall z, r <> Panic z) -> gh_eq (ret_gh c r) G ->
@@ -405,7 +428,7 @@ Section Local.
         destruct r as [x|e|z]; [exact RR| |exact RR]. destruct e; try exact RR.
         assert (EG : gh_eq gh_nil G) by (rewrite ret_gh_err in E; exact E).
         apply (aok_eq gh_nil); [exact EG|].
-        eapply aok_weak; [|apply enter_sb_ok; [exact Pf| | |exact Tk]].
+        eapply aok_weak; [|apply enter_sb_ok; [exact Pf|exact I| | |exact Tk]].
         * cbn [sw fold_right fw]. fold (sw k). lia.
         * destruct Pf as (r0 & Ec & _). eapply ntrees_pos; exact Ec.
         * split; [exact Pk|eapply sorted_weak; [|exact Sk]; lia].
@@ -421,6 +444,13 @@ Section Local.
         assert (EG : gh_eq gh_nil G) by (rewrite ret_gh_err in E; exact E).
         apply (aok_eq gh_nil); [exact EG|]. destruct Pf as [Ps Pc].
         eapply aok_weak; [|apply sb_try_ok; [exact Ps|exact Pc| |exact Tk]].
+        * cbn [sw fold_right fw]. fold (sw k). lia.
+        * split; [exact Pk|exact Sk].
+      + (* KSe *)
+        destruct r as [x|e|z]; [exact RR| |exact RR]. destruct e; try exact RR.
+        assert (EG : gh_eq gh_nil G) by (rewrite ret_gh_err in E; exact E).
+        apply (aok_eq gh_nil); [exact EG|]. destruct Pf as (Pa & Pc & Pn).
+        eapply aok_weak; [|apply se_next_ok; [exact Pa|exact Pc|exact Pn| |exact Tk]].
         * cbn [sw fold_right fw]. fold (sw k). lia.
         * split; [exact Pk|exact Sk].
     - (* VG *)
@@ -752,7 +782,7 @@ Section Local.
     destruct (rate_apply g policy (sb_rate sb) (t_class t) (t_free t)) as [n| | |]; try (apply AD); [|apply NX; exact S].
     destruct n as [|q]; [apply AD|].
     do 8 (destruct q as [q|q|]; try apply AD).
-    apply enter_access_ok; [exact A|exact Lw| |apply ret_ty_cons; [reflexivity|exact R]].
+    apply enter_access_ok; [exact (proj1 A)|exact (proj2 A)|exact Lw| |apply ret_ty_cons; [reflexivity|exact R]].
     apply pas_cons; [exact S|cbn; lia|exact P].
   Qed.
 
@@ -999,12 +1029,13 @@ Section Local.
   Lemma put_facts f r : c = UPut f r -> req_ok g u r /\ frame_ok u f (r_order r).
   Proof. intros Ec. rewrite Ec in CW. exact CW. Qed.
 
-  Lemma aok_unit k lo : (exists f r, c = UPut f r) \/ c = UDrain -> pas_stack u c lo k -> ret_ty false k ->
+  Lemma aok_unit k lo : (exists f r, c = UPut f r) \/ c = UDrain \/ (exists m ch, c = UChange m ch) ->
+    pas_stack u c lo k -> ret_ty false k ->
     aok gh_nil 21 (ARet (VR (Ok (0, 0))) k).
   Proof.
     intros Ec P T. split; [|cbn [wt]; eapply sw_bound; exact P]. cbn [act_ok].
     split; [eapply pas_weak; [|exact P]; lia|]. split; [exact T|]. split; [discriminate|].
-    destruct Ec as [(f & r & ->)| ->]; apply gh_eq_refl.
+    destruct Ec as [(f & r & ->)|[-> |(m & ch & ->)]]; apply gh_eq_refl.
   Qed.
 
   Lemma K_Put1 p f r k v :
@@ -1060,7 +1091,7 @@ Section Local.
       + cbn [twf]. split; [|split; [exact P|exact R]]. cbn [top_wf]. split; [exact Ec|]. split; [reflexivity|].
         eapply drain_scan_slots; exact E.
       + eapply gh_top_nil; [exact P|reflexivity|reflexivity].
-    - eapply aok_unit; [right; exact Ec|exact P|exact R].
+    - eapply aok_unit; [right; left; exact Ec|exact P|exact R].
   Qed.
 
   Lemma K_Dr1 p cc j k v :
@@ -1083,6 +1114,18 @@ Section Local.
     intros (T & P & R) V. cbn [top_wf] in T. destruct T as (Ec & t & a & Tp & L). cbn [lvl gives_vg] in P, R.
     destruct (tprim_v _ _ _ _ Tp V) as (ok & old & new & -> & Ha & Hu & ->). cbn [resume].
     rewrite (Hu _ _ eq_refl). cbn [post_gh]. rewrite gh_add_nil_r. apply dr_next_ok; assumption.
+  Qed.
+
+  (* --- change_at --- *)
+  Lemma K_Ch p k v :
+    twf g policy u c p (KCh :: k) -> vfacts p v ->
+    aok (gh_add (post_gh g p v KCh) gh_nil) 21 (resume g policy u v KCh k).
+  Proof.
+    intros (T & P & R) V. cbn [top_wf] in T. destruct T as (i & m & ch & Ec & Tp & L). cbn [lvl gives_vg] in P, R.
+    destruct (tprim_v _ _ _ _ Tp V) as (ok & old & new & -> & Ha & _ & ->). cbn [resume post_gh]. rewrite gh_add_nil_r.
+    destruct ok; cbn [tf_gh].
+    - eapply aok_unit; [right; right; eexists _, _; exact Ec|exact P|exact R].
+    - eapply aok_err'; eassumption.
   Qed.
 
   (* ----- all top frames ----- *)
@@ -1115,6 +1158,7 @@ Section Local.
     - exact (K_Put2 _ _ _ _ _ T V).
     - exact (K_Dr1 _ _ _ _ _ T V).
     - exact (K_Dr2 _ _ _ _ _ T V).
+    - exact (K_Ch _ _ _ T V).
   Qed.
 
   Lemma K_settle p f k v :
@@ -1131,7 +1175,7 @@ Section Local.
   Proof.
     intros Ec P T. unfold enter_global.
     assert (P5 : pas_stack u c 3 (KGet2 r None :: k)) by (apply pas_cons; [exact Ec|cbn; lia|exact P]).
-    eapply aok_weak; [eapply sw_bound; exact P5|]. apply enter_sb_ok; [|eapply ntrees_pos; exact Ec|exact P5|].
+    eapply aok_weak; [eapply sw_bound; exact P5|]. apply enter_sb_ok; [|exact I|eapply ntrees_pos; exact Ec|exact P5|].
     - exists r. split; [exact Ec|]. split; reflexivity.
     - apply ret_ty_cons; [reflexivity|exact T].
   Qed.
@@ -1146,12 +1190,13 @@ Section Start.
   Hypothesis SH : ntrees u = ntab g (frames (low u)).
   Notation TF := (TF g).
 
-  (* scope restriction "valid parameters": a slot index below the slot count of the class, or none; no change_tree *)
+  (* scope restriction "valid parameters": a slot index below the slot count of the class, or none;
+     change_tree: Offline or a pure class change onto a configured class (`change_ok`) *)
   Definition call_valid (c : ucall) : Prop :=
     match c with
     | UGet _ r | UPut _ r => forall l len, r_local r = Some l -> class_locals u (r_class r) = Some len -> l < len
     | UDrain => True
-    | UChange _ _ => False
+    | UChange _ ch => change_ok u ch
     end.
 
   Lemma check_wf frame r :
@@ -1191,7 +1236,7 @@ Section Start.
 
   Lemma start_ok c : call_valid c -> start_good c (settle g policy SETTLE u (enter_call g u c)).
   Proof.
-    intros V. destruct c as [fr r|f r| |m ch]; cbn [call_valid enter_call] in *; [| | |destruct V].
+    intros V. destruct c as [fr r|f r| |m ch]; cbn [call_valid enter_call] in *.
     - (* get *)
       unfold enter_get. destruct (check g u (match fr with Some f => f | None => 0 end) r) as [[]|e|z] eqn:Ck.
       2:{ unfold SETTLE. cbn [settle start_good]. split; [discriminate|reflexivity]. }
@@ -1238,6 +1283,22 @@ Section Start.
     - (* drain *)
       eapply good_start; [exact I|apply gh_eq_refl|]. apply settle_ok; [exact SH|exact I|].
       refine (proj1 (_ : aok g policy u _ gh_nil 21 _)). apply (dr_next_ok g policy u UDrain SH I); [reflexivity|apply pas_nil|reflexivity].
+    - (* change_tree *)
+      assert (CW : call_wf g u (UChange m ch)) by exact V.
+      eapply good_start; [exact CW|apply gh_eq_refl|]. apply settle_ok; [exact SH|exact CW|].
+      refine (proj1 (_ : aok g policy u _ gh_nil 21 _)).
+      assert (A : acc_wf u (UChange m ch) (AcChange (m_class m) (m_free m) ch)) by (exists m; repeat split).
+      assert (C : exists mc mf ch0, AcChange (m_class m) (m_free m) ch = AcChange mc mf ch0) by (eexists _, _, _; reflexivity).
+      unfold enter_change. destruct (m_id m) as [i|].
+      + destruct (UpperMachine.tree_ok u i) eqn:Et.
+        * apply (enter_access_change g policy u _ SH 21%nat); [exact A|exact C|apply N.ltb_lt; exact Et|apply pas_nil|reflexivity].
+        * cbn [enter_access]. rewrite Et. apply (aok_weak g policy u _ SH gh_nil 1%nat 21%nat); [lia|].
+          apply (aok_err g policy u _ SH CW EArgument []); [apply pas_nil|reflexivity].
+      + destruct (ntrees u =? 0) eqn:En.
+        * apply (aok_weak g policy u _ SH gh_nil 1%nat 21%nat); [lia|].
+          apply (aok_err g policy u _ SH CW EMemory []); [apply pas_nil|reflexivity].
+        * apply (aok_weak g policy u _ SH gh_nil 1%nat 21%nat); [lia|].
+          apply (se_next_ok g policy u _ SH CW _ 0 (length (trees u)) []); [exact A|exact C|apply N.eqb_neq; exact En|apply pas_nil|reflexivity].
   Qed.
 End Start.
 
@@ -1255,7 +1316,7 @@ Section Static.
   Lemma st_slot_ok cl i : slot_ok u' cl i = slot_ok u cl i.
   Proof. unfold slot_ok. rewrite st_locals. reflexivity. Qed.
 
-  Ltac st := unfold req_ok, frame_ok, tprim, row_ok, ros_ok, acc_wf;
+  Ltac st := unfold req_ok, frame_ok, tprim, row_ok, ros_ok, acc_wf, change_ok;
              repeat setoid_rewrite st_ntrees; repeat setoid_rewrite st_frames; repeat setoid_rewrite st_dflt;
              repeat setoid_rewrite st_slot_ok; repeat setoid_rewrite st_locals.
 
@@ -1269,7 +1330,7 @@ Section Static.
   Proof. unfold cands_ok. intros H. eapply Forall_impl; [|exact H]. intros x. cbv beta. rewrite st_ntrees. tauto. Qed.
   Lemma sb_wf_static c sb : sb_wf u c sb -> sb_wf u' c sb.
   Proof.
-    intros (A & B & C). split; [apply acc_wf_static; exact A|]. split; [apply cands_ok_static; exact B|].
+    intros ((A & A') & B & C). split; [split; [apply acc_wf_static; exact A|exact A']|]. split; [apply cands_ok_static; exact B|].
     rewrite st_ntrees. exact C.
   Qed.
   Lemma pas_wf_static c f : pas_wf u c f -> pas_wf u' c f.
@@ -1279,6 +1340,7 @@ Section Static.
     - st. exact H.
     - apply sb_wf_static. exact H.
     - destruct H as [A B]. split; [apply sb_wf_static; exact A|apply cands_ok_static; exact B].
+    - destruct H as (A & B & C). split; [apply acc_wf_static; exact A|]. split; [exact B|rewrite st_ntrees; exact C].
   Qed.
   Lemma top_wf_static c p f : top_wf g policy u c p f -> top_wf g policy u' c p f.
   Proof.
